@@ -143,15 +143,25 @@ def _c04(m, tier, seed, rundir, extra):
         m.extra['studio_written_files'] = info
     except Exception as e:  # noqa
         m.inconclusive.append(f'studio anchor files could not be prepared: {e!r}')
+    # files that carry a legacy PROP chunk next to the chunk of the property it migrates to, in both chunk orders
+    # (PROP order is a freedom of the format: the decoded DOM must not depend on it). Cases and expected values come from C15's generator.
+    from monitors import c15
+    lc = os.path.join(rundir, 'legacy-cases.jsonl')
+    core.run_vh(['c15', '--seed', seed, '--stride', 10 if tier == 'quick' else 2, '--cases', lc], os.path.join(rundir, 'legacy-cases-out.json'))
+    if os.path.exists(lc):
+        n_leg = c15.make(lc, os.path.join(rundir, f'files-{SH + 2}.jsonl'), seed, fmts=('bin',))
+        m.extra['legacy_twin_files'] = n_leg
+        made += n_leg
+        os.remove(lc)
     import concurrent.futures as cf
     outs = []
     with cf.ThreadPoolExecutor(max_workers=core.NCPU) as ex:
         futs = [ex.submit(core.run_vh, ['readcmp', '--prop', 'C04', '--in', os.path.join(rundir, f'files-{i}.jsonl')],
-                          os.path.join(rundir, f'readcmp-{i}.json')) for i in range(SH + 2) if os.path.exists(os.path.join(rundir, f'files-{i}.jsonl'))]
+                          os.path.join(rundir, f'readcmp-{i}.json')) for i in range(SH + 3) if os.path.exists(os.path.join(rundir, f'files-{i}.jsonl'))]
         outs = [f.result() for f in futs]
     m.add_results(outs, 'readcmp')
     m.extra['files_generated_by_reference_encoder'] = made
-    for i in range(SH + 2):
+    for i in range(SH + 3):
         for f in (f'logical-{i}.jsonl', f'files-{i}.jsonl'):
             p = os.path.join(rundir, f)
             if os.path.exists(p):
@@ -188,6 +198,9 @@ def _domops(pid):
             m.add_results(res, f'domops exhaustive init={init} steps={steps} rich={rich}')
             m.extra.setdefault('exhaustive_scopes', []).append({'dom_count': 2, 'initial_inserts': int(init), 'further_operations': int(steps),
                                                                'ref_properties': rich == '1', 'unique_id_pool': 1})
+        for n in m.notes:
+            if n.startswith('INCONCLUSIVE'):
+                m.inconclusive.append(n)
         if tier == 'thorough':
             core.miri_leg(m, pid, 'dom', [seed, seed + 1])
             if pid == 'C12':
